@@ -5641,12 +5641,7 @@ public:
             return true;
         }
 
-        const auto prev_block_length =
-            set_group_block_length(*header.blockLength());
-        sbepp::visit_children(g, c, *this);
-        set_group_block_length(prev_block_length);
-
-        return !is_valid();
+        return validate_entries(g, c, header, is_flat_group<T>{});
     }
 
     template<typename T, typename Cursor>
@@ -5701,6 +5696,39 @@ private:
     bool valid{true};
     // current group's blockLength, used to validate entry
     std::size_t group_block_length{};
+
+    // entries of a flat group have no variable-length members so they are
+    // validated at once. Visiting them one by one would take `numInGroup`
+    // steps even when `blockLength` is 0, i.e. the amount of work would be
+    // controlled by (potentially hostile) header alone, not by the buffer size.
+    template<typename T, typename Cursor, typename Header>
+    SBEPP_CPP14_CONSTEXPR bool validate_entries(
+        T /*g*/, Cursor& c, const Header header, std::true_type) noexcept
+    {
+        const std::size_t block_length = *header.blockLength();
+        const std::size_t count = *header.numInGroup();
+        if(block_length && (count > (size / block_length)))
+        {
+            valid = false;
+            return true;
+        }
+
+        size -= count * block_length;
+        c.pointer() += count * block_length;
+        return false;
+    }
+
+    template<typename T, typename Cursor, typename Header>
+    SBEPP_CPP14_CONSTEXPR bool validate_entries(
+        T g, Cursor& c, const Header header, std::false_type) noexcept
+    {
+        const auto prev_block_length =
+            set_group_block_length(*header.blockLength());
+        sbepp::visit_children(g, c, *this);
+        set_group_block_length(prev_block_length);
+
+        return !is_valid();
+    }
 
     SBEPP_CPP14_CONSTEXPR bool
         validate_and_subtract(const std::size_t n) noexcept
